@@ -179,6 +179,39 @@ theorem inv_handoff {fx : Fix} {s s' : St} {c : Nat} {m : Str} {r : Res} (hi : G
         · cases hs; exact inv_congr h0 rfl rfl rfl rfl rfl
         · cases hs
 
+theorem inv_send {fx : Fix} {s s' : St} {c : Nat} {r : Res} (hi : GInv s)
+    (hs : step fx s (.send c) = some (s', r)) : GInv s' := by
+  simp only [step] at hs
+  split at hs
+  · cases hs
+  · split at hs
+    · cases hs
+    · rename_i gid _
+      have h0 : GInv { s with inflight := s.inflight.filter (fun x => !(x.1 == c)) } :=
+        inv_congr hi rfl rfl rfl rfl rfl
+      split at hs
+      · have h1 := inv_setObj_same' (o' := { s.obj gid with workerDead := true }) h0 rfl rfl rfl rfl
+        cases hf : fx.closeOnFail <;> simp only [hf] at hs <;> cases hs <;>
+          exact inv_congr h1 rfl rfl rfl rfl rfl
+      · split at hs
+        · cases hs
+          exact inv_setObj_same' (o' := { s.obj gid with queue := (s.obj gid).queue ++ [c] }) h0 rfl rfl rfl rfl
+        · cases hs
+
+theorem inv_recv {fx : Fix} {s s' : St} {m : Str} {gid : Nat} {r : Res} (hi : GInv s)
+    (hs : step fx s (.recv m gid) = some (s', r)) : GInv s' := by
+  simp only [step] at hs
+  split at hs
+  · cases hs
+  · split at hs
+    · cases hs
+    · rename_i c q _
+      split at hs
+      · cases hs
+        exact inv_congr (inv_setObj_same' (o' := { s.obj gid with queue := q }) hi rfl rfl rfl rfl)
+          rfl rfl rfl rfl rfl
+      · cases hs
+
 
 theorem get_setObj_self {s : St} {gid : Nat} {o o' : Obj} (hg : s.objs[gid]? = some o) :
     (s.setObj gid o').objs[gid]? = some o' := by
@@ -486,6 +519,8 @@ theorem inv_step {fx : Fix} (h1 : fx.oneLock = true) {s s' : St} {l : Label} {r 
   | leaveG m g => exact inv_leaveG h1 hi hs
   | accept c gid => exact inv_accept hi hs
   | handoff c m => exact inv_handoff hi hs
+  | send c => exact inv_send hi hs
+  | recv m gid => exact inv_recv hi hs
   | request gid => exact inv_request hi hs
   | squat k => exact inv_squat hi hs
   | unsquat k => exact inv_unsquat hi hs
